@@ -546,6 +546,10 @@ MUTANTS = [
     M("G8-1-same-suit", ["C05", "C12"], (RP, "CardPair::new(Card::new(high, high_suit), Card::new(kicker, kicker_suit))", "CardPair::new(Card::new(high, high_suit), Card::new(kicker, high_suit))"), base="G8-1"),
     M("c12-zero-weight-pairs-dropped", ["C12", "C06", "C17"], (HRS, "                {\n                    rank_pairs.insert(pocket, *probability);", "                    && *probability > 0.0\n                {\n                    rank_pairs.insert(pocket, *probability);")),
     M("G5-1-zero-weight-pairs-dropped", ["C12", "C17"], (HRS, "        let probability = self.0.get(card_pairs.as_slice().first()?)?;\n", "        let probability = self.0.get(card_pairs.as_slice().first()?)?;\n        if *probability <= 0.0 {\n            return None;\n        }\n"), base="G5-1"),
+    M("benign-G4-1-display-case-loop", ["C06", "C17", "C09"], base="G4-1", benign=True),
+    M("G4-1-offsuit-first", ["C17"], (HRS, "= [RankPair::Suited, RankPair::Ofsuit];", "= [RankPair::Ofsuit, RankPair::Suited];"), base="G4-1"),
+    M("G4-1-suited-twice", ["C06", "C17"], (HRS, "= [RankPair::Suited, RankPair::Ofsuit];", "= [RankPair::Suited, RankPair::Suited];"), base="G4-1"),
+    M("G4-1-run-weight-lt", ["C06", "C17"], (HRS, "                            || probability.unwrap_or(&0_f32) != start_probability\n                        {\n                            let prev_rank = kicker.prev().unwrap();", "                            || probability.unwrap_or(&0_f32) < start_probability\n                        {\n                            let prev_rank = kicker.prev().unwrap();"), base="G4-1"),
     M("benign-F3-3-computed-flush-weight", ["C01", "C07", "C08"], base="F3-3", benign=True),
     M("F3-3-unreversed", ["C01", "C07"], (MH, "1 << (12 - u8::from(card.rank()))", "1 << u8::from(card.rank())"), base="F3-3"),
     M("F3-3-off-by-one", ["C01", "C07"], (MH, "1 << (12 - u8::from(card.rank()))", "1 << (13 - u8::from(card.rank()))"), base="F3-3"),
